@@ -243,7 +243,7 @@ func stripConvs(v ssa.Value) ssa.Value {
 
 func calleeShort(c *ssa.Call) string {
 	if sc := c.Common().StaticCallee(); sc != nil {
-		n := sc.Name()
+		n := cname(sc)
 		if i := strings.IndexByte(n, '['); i > 0 {
 			n = n[:i]
 		}
@@ -260,7 +260,15 @@ func fieldName(t types.Type, idx int) string {
 		t = p.Elem()
 	}
 	if st, ok := t.Underlying().(*types.Struct); ok && idx < st.NumFields() {
-		return st.Field(idx).Name()
+		n := st.Field(idx).Name()
+		if theProg != nil && theProg.al != nil && len(theProg.al.fieldCurToRef) > 0 {
+			if nt := namedOf(t); nt != nil && nt.Obj().Pkg() != nil {
+				if r, ok := theProg.al.fieldCurToRef[nt.Obj().Pkg().Name()+"."+nt.Obj().Name()+"."+n]; ok {
+					return r
+				}
+			}
+		}
+		return n
 	}
 	return fmt.Sprintf("#%d", idx)
 }
